@@ -127,7 +127,7 @@ PROPS = {
         'incoq_k': 8,
         'harness': 'c13',
         'run_module': 'RunSession',
-        'rule': 'storages of 1-3 String lists (0-30 lines each: hosts lines, bare domains, host-level rules with important / badfilter / dnstype / client / ctag / dnsrewrite / denyallow, || rules reachable both by hostname and by URL requests, regex rules incl. an invalid one, lookup-table rules) shared by one NetworkEngine and one DNSEngine; histories of 30-60 (150-300 thorough) queries: URL requests (also https/ws/wss variants of hosts queried by name before), hostname requests through NetworkEngine.MatchAll, DNS requests through DNSEngine.MatchRequest with alternating client name / IP / tags / record type, one query in four repeating an earlier one (possibly through the other engine or with other client fields); after every third query the derived results (DNSRewrites, DNSRewritesAll, GetDNSBasicRule, NewMatchingResult.GetBasicResult, GetCosmeticOption) of older result objects are evaluated; the harness also asks every query on fresh engines and re-serialises every old result object at the end; non-trivial = some query of the history matched',
+        'rule': 'storages of 1-3 lists, String- and File-backed alternately (0-30 lines each: hosts lines, bare domains, host-level rules with important / badfilter / dnstype / client / ctag / dnsrewrite / denyallow, || rules reachable both by hostname and by URL requests, regex rules incl. an invalid one, lookup-table rules) shared by one NetworkEngine, one DNSEngine and one web Engine; histories of 30-60 (150-300 thorough) queries: URL requests (also https/ws/wss variants of hosts queried by name before), hostname requests through NetworkEngine.MatchAll, web requests with referrers through Engine.MatchRequest (verdict class, basic rule, cosmetic option), names in other letter cases and address literals between ordinary names, DNS requests through DNSEngine.MatchRequest with alternating client name / IP / tags / record type, one query in four repeating an earlier one (possibly through the other engine or with other client fields); after every third query the derived results (DNSRewrites, DNSRewritesAll, GetDNSBasicRule, NewMatchingResult.GetBasicResult, GetCosmeticOption) of older result objects are evaluated; the harness also asks every query on fresh engines and re-serialises every old result object at the end; plus straddling-block histories on 13 KB file-backed lists, Go-side web histories with colliding / case-variant referrers, and one 17 000-query history; non-trivial = some query of the history matched',
         'correspondence': 'per query the canonical answer (sorted rule texts; for DNS: network rules, basic-rule class, V4, V6, matched) of the implementation in history vs the STATEFUL model (cache, lazy compilation memo, request pool) run on the same history, which by C13_history_independent equals the pure answer; Go-side flags: answer differs from the fresh-engine answer, an old result object changed',
         'assumptions': ['slice aliasing between result objects is exercised on the implementation side only (re-serialisation of old results); the model treats results as values'],
     },
